@@ -49,7 +49,7 @@ PROPS = {
     ),
     "C05": dict(
         facts=True,
-        families=[dict(name="edits", args=["-specs", "6"]), dict(name="tree", args=["-specs", "15"]), dict(name="same")],
+        families=[dict(name="edits", args=["-specs", "6,26"]), dict(name="tree", args=["-specs", "15"]), dict(name="same")],
         level_text="Theorems C05_iff (ContentsMatch is true exactly when the workspace entry, links followed, equals the "
                    "tree the recorded checksum stands for and that tree is in the cache), C05_file_iff, C05_skip, "
                    "C05_after_commit, C05_short_circuit_agrees, C05_same_contents (whole-buffer comparison = byte "
